@@ -199,7 +199,7 @@ type c09hpReq struct {
 
 func TestVerif_C09_h2hpack(t *testing.T) {
 	s := verifh.New(t, "C09", "h2hpack",
-		"4..12 requests on ONE real ClientConn against a frame-script peer that keeps the raw header blocks: methods GET/HEAD/POST(no body), paths / , /index.html, /p<i>; header fields drawn with repetition from a small pool (x-a, x-b with 2 values each, cookie with 1..3 crumbs, authorization, a 1500-byte and a 5000-byte x-pad — the table holds two of the former and none of the latter: eviction and not-indexed literals), a per-request x-tag; request modes: normal / context done before the call / cancelled while queueing for reqHeaderMu behind a parked request / cancelled inside the stream hook (id allocated, just before encodeAndWriteHeaders); oracle: the peer's connection-long hpack.Decoder never fails, block i carries the x-tag of the i-th request that was meant to be written, every normal request gets its 200; model: representation of every field of every block + dynamic-table length = Req/Pool/H2Hpack.lean; non-trivial = a cancelled request between two written ones and at least one field sent as a dynamic-table index")
+		"4..12 requests on ONE real ClientConn against a frame-script peer that keeps the raw header blocks: methods GET/HEAD/POST(no body), paths / , /index.html, /p<i>; header fields drawn with repetition from a small pool (x-a, x-b with 2 values each, cookie with 1..3 crumbs, authorization, a 1500-byte and a 5000-byte x-pad — the table holds two of the former and none of the latter: eviction and not-indexed literals), a per-request x-tag; the peer announces SETTINGS_HEADER_TABLE_SIZE 4096 (default, 4 of 9) / 256 / 100 / 0 / 1700 / 8192 before the first request and decodes with a table of that size (cases < 4096 carry the class of finding C09-5); request modes: normal / context done before the call / cancelled while queueing for reqHeaderMu behind a parked request / cancelled inside the stream hook (id allocated, just before encodeAndWriteHeaders); oracle: the peer's connection-long hpack.Decoder never fails, block i carries the x-tag of the i-th request that was meant to be written, every normal request gets its 200; model: representation of every field of every block + dynamic-table length = Req/Pool/H2Hpack.lean; non-trivial = a cancelled request between two written ones and at least one field sent as a dynamic-table index")
 	r := s.Rand()
 	n := verifh.N(40, 700)
 	nBad := 0
@@ -209,6 +209,8 @@ func TestVerif_C09_h2hpack(t *testing.T) {
 		{"x-big", strings.Repeat("B", 5000)}, {"accept-language", "en"}, {"user-agent", "verif"}}
 	for cs := 0; cs < n && nBad < 3; cs++ {
 		k := 4 + r.Intn(9)
+		// r5 finding C09-5: the peer's SETTINGS_HEADER_TABLE_SIZE (its decoder table); 4096 = default, not sent
+		tableSize := verifh.Pick(r, []int{4096, 4096, 4096, 4096, 256, 100, 0, 1700, 8192})
 		reqs := make([]c09hpReq, k)
 		var human []string
 		for i := range reqs {
@@ -243,11 +245,19 @@ func TestVerif_C09_h2hpack(t *testing.T) {
 			}
 			human = append(human, fmt.Sprintf("%s:%s %s {%s}", q.mode, q.method, q.path, strings.Join(hn, " ")))
 		}
-		hum := strings.Join(human, " | ")
+		hum := fmt.Sprintf("peer HEADER_TABLE_SIZE=%d: ", tableSize) + strings.Join(human, " | ")
 		s.Begin(fmt.Sprintf("h2hpack-%d", cs), hum)
-		blocks, ids, wantTags, problems := c09hpRun(t, reqs)
-		// oracle: a decoder that lives as long as the connection
-		dec := hpack.NewDecoder(4096, nil)
+		blocks, ids, wantTags, problems := c09hpRun(t, reqs, tableSize)
+		// known finding C09-5 (fixes/C09-5-h2-peer-header-table-size.patch): the encoder ignores a
+		// peer table smaller than its own 4096 — exactly the cases with tableSize < 4096
+		class := ""
+		if tableSize < 4096 {
+			class = "h2-peer-header-table-size-ignored"
+		}
+		s.Count(fmt.Sprintf("peer-table-%d", tableSize))
+		// oracle: a decoder that lives as long as the connection, created as a peer that announced
+		// tableSize creates it
+		dec := hpack.NewDecoder(uint32(tableSize), nil)
 		var modelBlocks, implAns []string
 		sawDynIndex, cancelledBetween := false, false
 		ok := len(problems) == 0
@@ -280,6 +290,17 @@ func TestVerif_C09_h2hpack(t *testing.T) {
 				detail = append(detail, fmt.Sprintf("block %d (stream %d) decodes to x-tag %q, the request written there has %q", i, ids[i], tag, wantTags[i]))
 			}
 			reps, err := c09hpReps(raw)
+			{ // dynamic table size updates are not field representations
+				var fr []string
+				for _, rp := range reps {
+					if rp == "SIZE-UPDATE" {
+						s.Count("size-update-seen")
+						continue
+					}
+					fr = append(fr, rp)
+				}
+				reps = fr
+			}
 			if err != nil {
 				ok = false
 				detail = append(detail, fmt.Sprintf("block %d: cannot read the representations: %v", i, err))
@@ -310,15 +331,19 @@ func TestVerif_C09_h2hpack(t *testing.T) {
 		}
 		nontrivial := sawDynIndex && cancelledBetween
 		if !ok || len(modelBlocks) == 0 {
-			s.Observe(fmt.Sprintf("h2hpack-%d", cs), ok, "", nontrivial, hum, strings.Join(detail, "; "))
-			if !ok {
+			s.Observe(fmt.Sprintf("h2hpack-%d", cs), ok, class, nontrivial, hum, strings.Join(detail, "; "))
+			if !ok && class == "" { // a known-finding case does not end the lane early
 				nBad++
 			}
 			continue
 		}
 		// the dynamic-table length is not observable at the peer: take the model's (the tie is the
 		// representation list, which depends on the whole table content)
-		line := "c09hpack 4096 " + strings.Join(modelBlocks, "/")
+		eff := tableSize // the encoder's own limit is 4096
+		if eff > 4096 {
+			eff = 4096
+		}
+		line := fmt.Sprintf("c09hpack %d ", eff) + strings.Join(modelBlocks, "/")
 		ans, err := verifh.RunModel([]string{line})
 		if err != nil {
 			t.Fatalf("model: %v", err)
@@ -332,8 +357,8 @@ func TestVerif_C09_h2hpack(t *testing.T) {
 			}
 		}
 		answer := strings.Join(implAns, ";")
-		s.Case(line, answer, true, "", nontrivial, hum)
-		if answer != ans[0] {
+		s.Case(line, answer, true, class, nontrivial, hum)
+		if answer != ans[0] && class == "" {
 			nBad++
 		}
 	}
@@ -343,7 +368,7 @@ func TestVerif_C09_h2hpack(t *testing.T) {
 // the peer's table length cannot be read from outside the hpack package
 func dec2len(*hpack.Decoder, []hpack.HeaderField) int { return -1 }
 
-func c09hpRun(t *testing.T, reqs []c09hpReq) (blocks [][]byte, ids []uint32, wantTags []string, problems []string) {
+func c09hpRun(t *testing.T, reqs []c09hpReq, tableSize int) (blocks [][]byte, ids []uint32, wantTags []string, problems []string) {
 	ln, err := net.Listen("tcp", "127.0.0.1:0")
 	if err != nil {
 		t.Fatalf("listen: %v", err)
@@ -363,7 +388,12 @@ func c09hpRun(t *testing.T, reqs []c09hpReq) (blocks [][]byte, ids []uint32, wan
 		}
 		p := &c09hpPeer{conn: c, fr: xh2hp.NewFramer(c, c), gone: make(chan struct{})}
 		p.henc = hpack.NewEncoder(&p.hbuf)
-		p.fr.WriteSettings(xh2hp.Setting{ID: xh2hp.SettingMaxConcurrentStreams, Val: 100})
+		if tableSize != 4096 {
+			p.fr.WriteSettings(xh2hp.Setting{ID: xh2hp.SettingMaxConcurrentStreams, Val: 100},
+				xh2hp.Setting{ID: xh2hp.SettingHeaderTableSize, Val: uint32(tableSize)})
+		} else {
+			p.fr.WriteSettings(xh2hp.Setting{ID: xh2hp.SettingMaxConcurrentStreams, Val: 100})
+		}
 		go p.readLoop()
 		peerCh <- p
 	}()
